@@ -91,6 +91,9 @@ def make_case(seed, tier):
     case['horizon'] = 45 + 60 + opts['scheduler.pickup_job_after'] + \
         3 * opts['scheduler.captured_job_timeout'] + 110
     case['max_steps'] = 20000
+    # overlap windows between the scheduler instances (capture races); the
+    # runner switches them off in runs with crash faults
+    c['overlap'] = rng.choice([0.0, 0.5, 1.0])
     return case
 
 
